@@ -8,10 +8,12 @@ package main
 
 import (
 	"bytes"
+	"context"
 	"crypto/sha512"
 	"encoding/binary"
 	"encoding/hex"
 	"encoding/json"
+	"errors"
 	"fmt"
 	"sort"
 	"strings"
@@ -249,27 +251,38 @@ func runC02(c Case) (res *res02) {
 	tree = mkvs.New(nil, treeDB, node.RootTypeState, treeOptions(c)...)
 	// attempt performs one tree operation, with the fault armed when the op asks for it; an
 	// injected failure is recorded and the operation retried once without fault.
-	attempt := func(i int, o Op, f func() error) error {
+	attempt := func(i int, o Op, f func(cx context.Context) error) error {
 		if o.FaultK <= 0 || fdb == nil {
-			return f()
+			return f(ctx)
 		}
-		fdb.arm(o.FaultK)
-		res.stats.add("faults", "armed/"+o.K)
-		err := f()
+		kind := o.faultKind()
+		tag := kind + "/" + o.K
+		cx, cancel := ctx, context.CancelFunc(nil)
+		if kind == "ctx" {
+			cx, cancel = context.WithCancel(ctx)
+			defer cancel()
+		}
+		_, present := res.ref[string(o.Key)]
+		fdb.arm(o.FaultK, cancel)
+		res.stats.add("faults", "armed/"+tag)
+		err := f(cx)
 		fired := fdb.disarm()
 		switch {
-		case err != nil && fired && isInjected(err):
+		case err != nil && fired && (kind == "db" && isInjected(err) || kind == "ctx" && errors.Is(err, context.Canceled)):
 			res.faulted[i] = true
 			res.fired++
-			res.stats.add("faults", "fired/"+o.K)
+			res.stats.add("faults", "fired/"+tag)
+			if o.K == "rem" && present {
+				res.stats.add("faults", "rem_present_fired")
+			}
 			res.sig.scan(tree)
-			return f()
+			return f(ctx) // retry, fresh context, no fault
 		case err != nil:
 			return err
 		case fired:
-			res.stats.add("faults", "fired_but_op_succeeded/"+o.K)
+			res.stats.add("faults", "fired_but_op_succeeded/"+tag)
 		default:
-			res.stats.add("faults", "not_reached/"+o.K)
+			res.stats.add("faults", "not_reached/"+tag)
 		}
 		return nil
 	}
@@ -317,7 +330,7 @@ func runC02(c Case) (res *res02) {
 		at = i
 		switch o.K {
 		case "ins":
-			if err = attempt(i, o, func() error { return tree.Insert(ctx, nn(o.Key), nn(o.Val)) }); err != nil {
+			if err = attempt(i, o, func(cx context.Context) error { return tree.Insert(cx, nn(o.Key), nn(o.Val)) }); err != nil {
 				fail("error", "unexpected error: Insert: %v", err)
 				return
 			}
@@ -325,7 +338,7 @@ func runC02(c Case) (res *res02) {
 			res.sig.scan(tree)
 			justCommitted = false
 		case "rem":
-			if err = attempt(i, o, func() error { return tree.Remove(ctx, nn(o.Key)) }); err != nil {
+			if err = attempt(i, o, func(cx context.Context) error { return tree.Remove(cx, nn(o.Key)) }); err != nil {
 				fail("error", "unexpected error: Remove: %v", err)
 				return
 			}
@@ -680,32 +693,6 @@ func twinWriteLog(r *prng.R, base Case, br *res02) Case {
 	return finish02(r, c)
 }
 
-const (
-	findingF3     = "C02:failed-remove-drops-child-pointers"
-	findingF3Mech = "a Remove that fails with a node database read error has already overwritten the child pointers on its path with nil while the nodes stay clean (remove.go:86-91 assign doRemove's nil result before err is checked): "
-)
-
-// firedOn: some fault armed on an op of the given kind fired before the failure.
-func firedOn(c Case, r *res02, kind string) bool {
-	for i := range r.faulted {
-		if i < len(c.Ops) && c.Ops[i].K == kind {
-			return true
-		}
-	}
-	return false
-}
-
-// stripFaults removes the fault arming from the ops of the given kind.
-func stripFaults(c Case, kind string) Case {
-	ops := append([]Op{}, c.Ops...)
-	for i := range ops {
-		if ops[i].K == kind {
-			ops[i].FaultK, ops[i].Faulted = 0, false
-		}
-	}
-	return c.withOps(ops)
-}
-
 // share of the eligible base cases that get a fault twin
 const faultTwinPct = 35
 
@@ -752,18 +739,39 @@ func twinFault(r *prng.R, base Case) Case {
 			ops = append(ops, o)
 		}
 	}
-	// candidate targets: mutations after the first commit
-	var cands []int
+	// candidate targets: mutations after the first commit; among them the removals of a key
+	// that is present at that point (simulated contents)
+	var cands, remPresent []int
 	committed := false
+	sim := map[string]bool{}
 	for i, o := range ops {
-		if o.K == "commit" {
+		switch o.K {
+		case "commit":
 			committed = true
-		} else if committed {
+			continue
+		case "rem":
+			if committed && sim[string(o.Key)] {
+				remPresent = append(remPresent, i)
+			}
+			delete(sim, string(o.Key))
+		case "ins":
+			sim[string(o.Key)] = true
+		}
+		if committed {
 			cands = append(cands, i)
 		}
 	}
 	targets := map[int]int{} // op index -> k
+	cold := map[int]bool{}   // targets that get a commit + reopen directly before them
 	for j, m := 0, r.Range(1, 3); j < m && len(cands) > 0; j++ {
+		if len(remPresent) > 0 && r.Chance(35) {
+			// Remove of a present key on a cold tree: the fetches of the two children of the
+			// first internal node before the descent are GetNode #2 / #3, a deeper one #4
+			t := remPresent[r.Intn(len(remPresent))]
+			targets[t] = r.Range(2, 4)
+			cold[t] = true
+			continue
+		}
 		// k = 1 fails the first fetch of the op (often the root: nothing to corrupt yet), so 2 and 3 get more weight
 		targets[cands[r.Intn(len(cands))]] = []int{1, 2, 2, 3, 3}[r.Intn(5)]
 	}
@@ -784,7 +792,7 @@ func twinFault(r *prng.R, base Case) Case {
 				last = i
 			}
 		}
-		if last >= 0 && last != t-1 && r.Chance(50) {
+		if last >= 0 && last != t-1 && !cold[t] && r.Chance(50) {
 			reopenAfter[last] = true
 		} else if last == t-1 {
 			reopenAfter[last] = true
@@ -798,7 +806,10 @@ func twinFault(r *prng.R, base Case) Case {
 			out = append(out, Op{K: "commit"}, Op{K: "reopen"})
 		}
 		if k, ok := targets[i]; ok {
-			o.FaultK = k
+			o.FaultK, o.FaultKind = k, "db"
+			if r.Chance(30) {
+				o.FaultKind = "ctx"
+			}
 		}
 		out = append(out, o)
 		if reopenAfter[i] {
@@ -931,27 +942,6 @@ func (s *session02) process(c Case, base *Case, br *res02) (*res02, int) {
 		if r.sig.f2 {
 			s.sum.Count("sig_without_failure", "dirty_pointer_without_node")
 		}
-	}
-	if r.viol != nil && firedOn(c, r, "rem") {
-		// evidence for the failed-Remove defect: the same twin with the faults on
-		// removals taken out (faults on inserts kept) is clean
-		if runC02(stripFaults(c, "rem")).viol == nil {
-			s.sum.Count("rem_fault_rerun", "clean")
-			what := findingF3Mech + r.viol.what
-			recordFinding(s.sum, findingF3, what, c, r.sig, func() (Case, string) {
-				sc := shrink02(c, r.cut, func(cand Case, rc *res02) bool {
-					return firedOn(cand, rc, "rem") && runC02(stripFaults(cand, "rem")).viol == nil
-				})
-				w := what
-				if r2 := runC02(sc); r2.viol != nil {
-					w = findingF3Mech + r2.viol.what
-					sc = withFaulted(sc, r2)
-				}
-				return sc, w
-			})
-			return r, idx
-		}
-		s.sum.Count("rem_fault_rerun", "failed")
 	}
 	if r.viol != nil {
 		vc, vr, note := c, r, ""
